@@ -228,6 +228,8 @@ func account(a *chunkAcc, prop string, r *run, restarts []restartOutcome) {
 	st["runs"]++
 	st["strays"] += r.strays
 	st["trace_events"] += len(r.trace)
+	st["far_channel_too_long_callbacks"] += r.farCallbacks
+	st["channel_too_long_answers_persisted_unreported"] += r.unreportedChTL
 	switch prop {
 	case "C01":
 		fs, s := r.checkC01()
